@@ -25,6 +25,8 @@ From ClapModel Require Import Parse.Matcher Parse.Errors Parse.Validator Parse.P
 From ClapModel Require Import ParseProofs.Spelling ParseProofs.ErrorSound.
 From ClapModel Require Import Parse.Cmd Parse.Build Parse.Valid Complete.EngineModel Complete.EngineProofs.
 From ClapModel Require Import Complete.EngineAccept Complete.EngineFuel Complete.EngineComplete Complete.EngineLevel.
+From ClapModel Require ParseProofs.Chain ParseProofs.ActionsTop.
+From ClapModel Require Import Complete.EngineLine Complete.EnginePositional.
 From ClapModel Require Gen.EngineSites.
 From Coq Require Import ZArith.
 Open Scope N_scope.
@@ -357,3 +359,206 @@ Print Assumptions C18_level_step_sub.
 Theorem C18_build_self_names : forall b d x, build_self (setnm b d x) = setnm b d (build_self x).
 Proof. exact nm_build_self. Qed.
 Print Assumptions C18_build_self_names.
+
+(** * Round 3: state agreement along prefixes that contain options; whole lines
+
+    [elevel pc cur]: the parser's node [pc] passed [assert_app], its short aliases sit on options, every aliased
+    argument has a long name, and [lvl_rel pc cur] (same arguments and settings, related children).
+    [Chain.prefix_ok pc pre F] (C09): [pre] is a list of items `--flag`, `--opt=v`, `--opt v`, `-abc`, `-ov`, `-o v`
+    of the level (exact keys, one value, no [require_equals] on the separate-value forms, values not starting with
+    `-` and not subcommand names); [F] is the fold of [react] it denotes.  [shadow_run] = the loop of
+    [complete] as a fold of [shadow_step].  [cline root line pcf]: [line] = option prefixes separated by names/aliases
+    of subcommands (not called help), every level in the class [lvl18] (decidable: [lvl18_b]); [pcf] is the parser's
+    lazily built final level.  [cand_class pcf w cd] (decidable: [cand_class_b]): what is assumed of the candidate -
+    option: typed cluster of known flags, the argument carrying the id has well-formed names, no subcommand name of
+    the level starts with `-`, the first positional does not want negative numbers; subcommand: UTF-8 spelling. *)
+
+(** the two models read a word identically *)
+Theorem C18_lexers_agree : forall s,
+  EngineModel.to_long s = Parser.to_long s /\ EngineModel.to_short s = Parser.to_short s /\
+  EngineModel.is_escape s = Parser.is_escape s.
+Proof. exact lexers_agree. Qed.
+Print Assumptions C18_lexers_agree.
+
+(** after an option prefix the engine is back in [ValueDone] - same level, same positional index, not escaped -
+    and the parser's token loop is back in [ValuesDone] - same positional counter, `--` not seen *)
+Theorem C18_state_agreement_prefix : forall pc cur pre F, elevel pc cur -> Chain.prefix_ok pc pre F ->
+  (forall pi, shadow_run pre cur pi false ValueDone = SNext cur pi false ValueDone) /\
+  (forall rest pos vaf st, fs_skip st = 0 ->
+     parse_loop pc (pre ++ rest) (Chain.lsV pos vaf) st =
+     (do st' <- F st; parse_loop pc rest (Chain.lsV pos (vaf || negb (is_nil pre))) st')).
+Proof. exact state_agreement_prefix. Qed.
+Print Assumptions C18_state_agreement_prefix.
+
+(** ... and after `--opt` / `-o` of an option that takes a value ([open_tok]) the engine stands in [Opt a 1]
+    exactly where the parser stands in [PSOpt (a_id a)]: the same argument, nothing collected yet *)
+Theorem C18_state_agreement_open : forall pc cur pre F tok a idn,
+  elevel pc cur -> Chain.prefix_ok pc pre F -> open_tok pc tok a idn ->
+  (forall pi, shadow_run (pre ++ [tok]) cur pi false ValueDone = SNext cur pi false (Opt a 1)) /\
+  (forall rest pos vaf st, fs_skip st = 0 ->
+     parse_loop pc (pre ++ tok :: rest) (Chain.lsV pos vaf) st =
+     (do st' <- F st; do st1 <- resolve_pending pc st';
+      parse_loop pc rest (mkL (PSOpt (a_id a)) pos true false)
+        (mkPs (Matcher.mkMatcher (Matcher.mt_args (mt st1)) (Some (Matcher.mkPending (a_id a) (Some idn) [] None)) (Matcher.mt_sub (mt st1)))
+              (cur_idx st1) (fs_at st1) (fs_skip st1)))).
+Proof. exact state_agreement_open. Qed.
+Print Assumptions C18_state_agreement_open.
+
+(** whole lines, engine side: with the cursor behind [line] the shadow parse of [complete] stands in [ValueDone],
+    before `--`, at a level related to the level [pcf] the parser model reaches *)
+Theorem C18_shadow_line : forall c0 bin line w after pcf f b,
+  tree_all unb c0 -> is_set s_no_binary_name c0 = false -> N.of_nat (length line) + 2 <= usize_max ->
+  build_full f c0 = BOk b -> cline (build_self (ActionsTop.with_bin c0 bin)) line pcf ->
+  exists curf pif, start_walk b (bin :: line ++ w :: after) (N.of_nat (S (length line))) = WAt w curf pif ValueDone false
+                   /\ lvl_rel pcf curf.
+Proof. exact shadow_line. Qed.
+Print Assumptions C18_shadow_line.
+
+(** END TO END: every option / subcommand candidate the engine offers at the cursor behind such a line, put in
+    place of the word, gives a line that [parse_top] does not reject with UnknownArgument / InvalidSubcommand *)
+Theorem C18_candidate_accepted_line : forall tbl c0 bin line w after l cd pcf e,
+  tree_all unb c0 -> is_set s_no_binary_name c0 = false ->
+  N.of_nat (length line) + 2 <= usize_max ->
+  cline (build_self (ActionsTop.with_bin c0 bin)) line pcf ->
+  complete_model tbl c0 (bin :: line ++ w :: after) (N.of_nat (S (length line))) = COk l ->
+  In cd l -> cand_class pcf w cd ->
+  parse_top c0 (bin :: line ++ [cd_value cd]) = OErr e -> ~ unknown_kind (e_kind e).
+Proof. exact candidate_accepted_line. Qed.
+Print Assumptions C18_candidate_accepted_line.
+
+(** the classes of the line theorem are decidable *)
+Theorem C18_line_classes_decidable :
+  (forall pc, lvl18_b pc = true -> lvl18 pc) /\ (forall pcf w cd, cand_class_b pcf w cd = true -> cand_class pcf w cd).
+Proof. exact line_classes_decidable. Qed.
+Print Assumptions C18_line_classes_decidable.
+
+(** class boundary [require_equals] (the engine has no model of it): `p --opt <TAB>`, `--opt` = Set, 0..=1 values,
+    require_equals, possible value `va`: the engine stands in [Opt], offers `va`, and the completed line
+    `p --opt va` is rejected by the parser model with UnknownArgument (same on the real crate, see notes) *)
+Theorem C18_require_equals_refuted : exists tbl c0 bin line cd,
+  (exists m, parse_top c0 (bin :: line) = OOk m) /\
+  (exists b cur a, build_full (build_fuel c0) c0 = BOk b /\
+     start_walk b (bin :: line ++ [[]]) (N.of_nat (S (length line))) = WAt [] cur 1 (Opt a 1) false /\ a_req_eq a = true) /\
+  (exists l, complete_model tbl c0 (bin :: line ++ [[]]) (N.of_nat (S (length line))) = COk l /\ In cd l) /\
+  (exists e, parse_top c0 (bin :: line ++ [cd_value cd]) = OErr e /\ e_kind e = EUnknownArgument).
+Proof. exact require_equals_refuted. Qed.
+Print Assumptions C18_require_equals_refuted.
+
+(** C18_complete_options needs its hypothesis [a_long a <> None]: a VISIBLE alias of an option without long name
+    (a key of the parser) extends the word `--`, yet no candidate carries the option's id
+    (known finding C18-alias-without-primary: the real engine behaves the same) *)
+Theorem C18_complete_options_alias_refuted : exists tbl w c pi l a s,
+  assert_app c = true /\ complete_arg tbl w c pi ValueDone = COk l /\
+  In a (c_args c) /\ a_hide a = false /\ In s (vis_aliases (a_aliases a)) /\
+  ~ In EQ s /\ utf8_valid w = true /\ is_prefix w (EngineModel.dd ++ s) = true /\ get_long c s = Some a /\
+  existsb (fun y => opt_cid_eqb (cd_id y) (Some (IdArg (a_id a)))) l = false.
+Proof. exact complete_options_alias_refuted. Qed.
+Print Assumptions C18_complete_options_alias_refuted.
+
+(** * Round 3: positional value candidates, the hidden rule for values, after `--` *)
+
+(** the hidden rule for VALUES, state [Opt]: a declared value of any visibility extending the word is offered
+    unless a visible candidate is (for a visible value C18_value_candidates_complete says more) *)
+Theorem C18_value_candidates_complete_any : forall tbl w c pi o cnt l pvs v h pre v0,
+  complete_arg tbl w c pi (Opt o cnt) = COk l ->
+  possible_values tbl o = Some (Some pvs) -> In (v, h) pvs ->
+  utf8_valid v0 = true -> is_prefix v0 v = true ->
+  (pre = [] /\ v0 = w /\ rsplit_delimiter w (a_delim o) = None
+   \/ rsplit_delimiter w (a_delim o) = Some (pre, v0)) ->
+  In (mkCand (pre ++ v) None h) l \/ exists y, In y l /\ cd_hidden y = false.
+Proof. exact opt_state_complete_any. Qed.
+Print Assumptions C18_value_candidates_complete_any.
+
+(** state [ValueDone]: a candidate WITHOUT id is a value candidate of the positional at [pos_index] or comes from
+    [complete_option] (the `--flag=value` / `-fvalue` forms, see C18_long_value_sound) *)
+Theorem C18_noid_candidates_origin : forall tbl w c pi l y,
+  complete_arg tbl w c pi ValueDone = COk l -> In y l -> cd_id y = None ->
+  (exists p lv, find_pos c pi = Some p /\ complete_arg_value tbl w p = Some lv /\ In y lv)
+  \/ (exists opts, complete_option tbl w c = COk opts /\ In y opts).
+Proof. exact value_done_noid_origin. Qed.
+Print Assumptions C18_noid_candidates_origin.
+
+(** ... for a plain word (not starting with `-`): it is a DECLARED possible value of that positional, with its
+    declared hidden flag, behind the typed delimiter prefix, and extends the word *)
+Theorem C18_positional_values_sound : forall tbl b t c pi l y, b <> DASH ->
+  complete_arg tbl (b :: t) c pi ValueDone = COk l -> In y l -> cd_id y = None ->
+  exists p, find_pos c pi = Some p /\ is_prefix (b :: t) (cd_value y) = true /\
+    exists pre v pvs, possible_values tbl p = Some (Some pvs) /\ In (v, cd_hidden y) pvs /\ cd_value y = pre ++ v.
+Proof. exact positional_values_sound. Qed.
+Print Assumptions C18_positional_values_sound.
+
+(** every visible declared value of the positional at [pos_index] extending the last element of the word is offered *)
+Theorem C18_positional_values_complete : forall tbl w c pi l p pvs v pre v0,
+  complete_arg tbl w c pi ValueDone = COk l -> find_pos c pi = Some p ->
+  possible_values tbl p = Some (Some pvs) -> In (v, false) pvs ->
+  utf8_valid v0 = true -> is_prefix v0 v = true ->
+  (pre = [] /\ v0 = w /\ rsplit_delimiter w (a_delim p) = None
+   \/ rsplit_delimiter w (a_delim p) = Some (pre, v0)) ->
+  In (mkCand (pre ++ v) None false) l.
+Proof. exact positional_values_complete. Qed.
+Print Assumptions C18_positional_values_complete.
+
+(** ... and a hidden one unless a visible candidate is *)
+Theorem C18_positional_values_complete_any : forall tbl w c pi l p pvs v h pre v0,
+  complete_arg tbl w c pi ValueDone = COk l -> find_pos c pi = Some p ->
+  possible_values tbl p = Some (Some pvs) -> In (v, h) pvs ->
+  utf8_valid v0 = true -> is_prefix v0 v = true ->
+  (pre = [] /\ v0 = w /\ rsplit_delimiter w (a_delim p) = None
+   \/ rsplit_delimiter w (a_delim p) = Some (pre, v0)) ->
+  In (mkCand (pre ++ v) None h) l \/ exists y, In y l /\ cd_hidden y = false.
+Proof. exact positional_values_complete_any. Qed.
+Print Assumptions C18_positional_values_complete_any.
+
+(** state [Pos idx cnt] (a multi-value positional is being filled): candidates are values of the positional at
+    [pos_index], option candidates only once its minimum number of values is reached; nothing without a positional *)
+Theorem C18_pos_state_origin : forall tbl w c pi idx cnt l p y,
+  complete_arg tbl w c pi (Pos idx cnt) = COk l -> find_pos c pi = Some p -> In y l ->
+  (exists lv, complete_arg_value tbl w p = Some lv /\ In y lv) \/
+  (pos_min_reached p cnt = true /\ exists opts, complete_option tbl w c = COk opts /\ In y opts).
+Proof. exact pos_state_origin. Qed.
+Print Assumptions C18_pos_state_origin.
+
+Theorem C18_pos_state_complete : forall tbl w c pi idx cnt l p pvs v pre v0,
+  complete_arg tbl w c pi (Pos idx cnt) = COk l -> find_pos c pi = Some p ->
+  possible_values tbl p = Some (Some pvs) -> In (v, false) pvs ->
+  utf8_valid v0 = true -> is_prefix v0 v = true ->
+  (pre = [] /\ v0 = w /\ rsplit_delimiter w (a_delim p) = None
+   \/ rsplit_delimiter w (a_delim p) = Some (pre, v0)) ->
+  In (mkCand (pre ++ v) None false) l.
+Proof. exact pos_state_complete. Qed.
+Print Assumptions C18_pos_state_complete.
+
+Theorem C18_pos_state_none : forall tbl w c pi idx cnt,
+  find_pos c pi = None -> complete_arg tbl w c pi (Pos idx cnt) = COk [].
+Proof. exact pos_state_none. Qed.
+Print Assumptions C18_pos_state_none.
+
+(** after `--`: one step of the shadow parse descends on a subcommand name or counts a positional value - no token
+    is read as an option; the escape flag stays ... *)
+Theorem C18_escaped_step : forall arg cur pi st,
+  shadow_step arg cur pi true st =
+  match (if try_sub cur st && utf8_valid arg then find_subcommand cur arg else None) with
+  | Some next => SNext next 1 true ValueDone
+  | None => match parse_positional cur pi true st with
+            | Some (st', pi') => SNext cur pi' true st'
+            | None => SPanic 673
+            end
+  end.
+Proof. exact escaped_step. Qed.
+Print Assumptions C18_escaped_step.
+
+(** ... and a counted value leaves the state [Pos], never [ValueDone] *)
+Theorem C18_escaped_positional_state : forall cur pi st st' pi',
+  (match st with Opt _ _ => False | _ => True end) ->
+  parse_positional cur pi true st = Some (st', pi') -> exists i n, st' = Pos i n.
+Proof. exact escaped_positional_state. Qed.
+Print Assumptions C18_escaped_positional_state.
+
+(** the planned statement "after `--` only positional values are offered" is FALSE of the model (and of the crate):
+    `p -- <TAB>` offers `--opt` and `sub`, `p -- a <TAB>` offers `--opt` (outside the property: "before any `--`") *)
+Theorem C18_escape_only_positionals_refuted :
+  Esc.has_cand (dd ++ Esc.w_opt) (complete_model [] Esc.c0 [[112]; dd; []] 2) = true /\
+  Esc.has_cand Esc.w_sub (complete_model [] Esc.c0 [[112]; dd; []] 2) = true /\
+  Esc.has_cand (dd ++ Esc.w_opt) (complete_model [] Esc.c0 [[112]; dd; [97]; []] 3) = true.
+Proof. exact escape_offers_options. Qed.
+Print Assumptions C18_escape_only_positionals_refuted.
